@@ -18,6 +18,14 @@ def gen_program(rng):
                   '.define segment {', '    name = "code"', '    start = $2000', '    bank = "b0"', '}',
                   '.define segment {', '    name = "other"', '    start = $4000', '    bank = "b1"', '}',
                   '.segment "other" {', '    .byte $55, $66, $77', '}', '.segment "code"']
+    # the called subroutines in a segment of their own that lies BELOW the code and is written behind (or in front of) the test:
+    # assertions are then not collected in ascending address order
+    use_low = rng.random() < 0.3
+    if use_low and not two_banks:
+        lines += ['.define segment {', '    name = "code"', '    start = $2000', '}', '.define segment {', '    name = "low"', '    start = $1000', '}', '.segment "code"']
+    elif use_low:
+        k = lines.index('.segment "other" {')
+        lines[k:k] = ['.define segment {', '    name = "low"', '    start = $1000', '    bank = "b0"', '}']
     lines.append(".const shared = %d" % rng.randrange(256))
     tests = []
     for t in range(ntests):
@@ -38,7 +46,21 @@ def gen_program(rng):
             where = {s: (l + 1 if l >= k else l) for s, l in where.items()}
         k = blines.index("    brk")
         absolute = {}
-        if len(blines) > k + 1 and rng.random() < 0.3:
+        if len(blines) > k + 1 and use_low and rng.random() < 0.8:
+            subs_first = rng.random() < 0.3
+            block = ['.segment "low" {'] + blines[k + 1:] + ["}"]
+            if subs_first:
+                base_subs = len(lines) + 1
+                lines.extend(block)
+            lines.append('.test "%s" {' % name)
+            base = len(lines)
+            lines.extend(blines[:k + 1])
+            if not subs_first:
+                lines.append("}")
+                base_subs = len(lines) + 1
+                lines.extend(block[:-1])        # the closing brace of the segment block is the `}` appended below
+            absolute = {s: (base + l if l <= k else base_subs + l - (k + 1)) for s, l in where.items()}
+        elif len(blines) > k + 1 and rng.random() < 0.3:
             # the subroutines in front of the test instead of behind its BRK: their assertions are emitted before the test is
             base_subs = len(lines)
             lines.extend(blines[k + 1:])
@@ -93,12 +115,35 @@ def check_witnesses(acc):
         acc.inconc("witness did not run: %s" % (r["out"] + r["err"])[-200:])
 
 
+def check_many_failures(acc, count):
+    """The exit status is non-zero however many tests fail (a status is one byte: 256 failures must not read as success)."""
+    acc.evaluations += 1
+    src = "".join('.test "t%d" {\n    lda #%d\n    .assert cpu.a == %d\n    brk\n}\n' % (i, i % 256, (i + 1) % 256) for i in range(count))
+    with TempProject({"main.asm": src}, "") as tp:
+        r = run_mos(["--no-color", "-e", "Short", "test"], tp.dir, timeout=300)
+    if r["timeout"] or r["rc"] in (96, 97, 101) or (r["rc"] or 0) < 0:
+        acc.inconc("%d failing tests: abnormal exit %s" % (count, r["rc"]))
+        return
+    got = [m.group("res") for m in RESULT.finditer(r["err"] + "\n" + r["out"])]
+    acc.count("many_failures.tests_reported", len(got))
+    if got.count("failed") != count:
+        acc.violation("wrong-verdict|expected-fail|many-tests", "%d failing tests: %d reported as failed" % (count, got.count("failed")), {"tests": count, "stderr": r["err"][-600:]})
+    elif r["rc"] == 0:
+        acc.violation("exit-status|zero-with-failures|%d-failures" % count, "exit status 0 with %d failing tests" % count, {"tests": count, "main.asm": src[:300], "stderr": r["err"][-300:]})
+    else:
+        acc.nontriv("many-failures", count)
+
+
 def shard(idx, n, seed, tier, params):
     acc = Acc()
     rng = rng_for(seed, "c18", idx)
     t_end = time.time() + params["budget"]
     if idx == 0:
         check_witnesses(acc)
+    if idx == 1 % n:
+        check_many_failures(acc, 256)
+    if tier == "thorough" and idx == 2 % n:
+        check_many_failures(acc, 512)
     for i in range(params["programs"] // n):
         if time.time() > t_end:
             acc.count("budget_cut")
